@@ -97,7 +97,19 @@ pub struct State {
     pub pipe_r: c_int,
     pub pipe_w: c_int,
     pub page: usize,
+    /// intercepted calls since the shim was last armed (bounded liveness: one library call
+    /// that makes more than `MAX_WINDOW_CALLS` of them is not making progress)
+    pub window_calls: u64,
+    /// release-time fault: while set, an `mprotect` that asks for rights every page of its
+    /// range already has, and every `madvise`, fail (ENOMEM / EINVAL). Nothing a correct
+    /// program needs is denied: memory that was writable stays writable.
+    pub relfault: bool,
+    pub relfault_fired: u32,
 }
+
+pub const MAX_WINDOW_CALLS: u64 = 100_000;
+/// exit status of a worker the shim ended for lack of progress
+pub const NO_PROGRESS_EXIT: i32 = 86;
 
 static ARMED: AtomicBool = AtomicBool::new(false);
 static mut STATE: State = State {
@@ -120,6 +132,9 @@ static mut STATE: State = State {
     pipe_r: -1,
     pipe_w: -1,
     page: 4096,
+    window_calls: 0,
+    relfault: false,
+    relfault_fired: 0,
 };
 
 #[allow(static_mut_refs)]
@@ -151,7 +166,26 @@ pub fn init() -> Result<(), String> {
 }
 
 pub fn arm() {
+    st().window_calls = 0;
     ARMED.store(true, Ordering::SeqCst);
+}
+
+/// Count one intercepted call; end the process when the library call in flight has made
+/// more of them than any terminating call could (a retry loop that never gives up).
+fn tick() {
+    let s = st();
+    s.window_calls += 1;
+    if s.window_calls > MAX_WINDOW_CALLS {
+        unsafe { libc::_exit(NO_PROGRESS_EXIT) };
+    }
+}
+
+pub fn set_relfault(on: bool) {
+    st().relfault = on;
+}
+
+pub fn relfault_fired() -> u32 {
+    st().relfault_fired
 }
 
 pub fn disarm() {
@@ -171,6 +205,9 @@ pub fn reset(plan: Plan) {
     s.budget_locked_pages = 0;
     s.peak_locked_pages = 0;
     s.nlocked_set = 0;
+    s.window_calls = 0;
+    s.relfault = false;
+    s.relfault_fired = 0;
 }
 
 fn set_contains(s: &State, pg: usize) -> bool {
@@ -241,6 +278,7 @@ pub unsafe extern "C" fn mlock(addr: *const c_void, len: size_t) -> c_int {
     if !ARMED.load(Ordering::Relaxed) {
         return libc::syscall(libc::SYS_mlock, addr, len) as c_int;
     }
+    tick();
     let s = st();
     s.lock_requests += 1;
     let n = s.lock_requests;
@@ -296,6 +334,7 @@ pub unsafe extern "C" fn mlock(addr: *const c_void, len: size_t) -> c_int {
 #[no_mangle]
 pub unsafe extern "C" fn munlock(addr: *const c_void, len: size_t) -> c_int {
     if ARMED.load(Ordering::Relaxed) {
+        tick();
         let s = st();
         if let Plan::RefuseAllFrom { k, errno } = s.plan {
             if s.lock_requests >= k {
@@ -319,6 +358,32 @@ pub unsafe extern "C" fn munlock(addr: *const c_void, len: size_t) -> c_int {
 
 #[no_mangle]
 pub unsafe extern "C" fn mprotect(addr: *mut c_void, len: size_t, prot: c_int) -> c_int {
+    if ARMED.load(Ordering::Relaxed) {
+        tick();
+        let s = st();
+        if s.relfault && len > 0 {
+            // refuse only a request that changes nothing
+            let page = s.page;
+            let lo = (addr as usize) & !(page - 1);
+            let hi = (addr as usize + len + page - 1) & !(page - 1);
+            let want = Rights { r: prot & libc::PROT_READ != 0, w: prot & libc::PROT_WRITE != 0 };
+            let npages = (hi - lo) / page;
+            let mut same = npages <= 4096;
+            let mut pg = lo;
+            while same && pg < hi {
+                if probe_rights(pg) != want {
+                    same = false;
+                }
+                pg += page;
+            }
+            if same {
+                s.relfault_fired += 1;
+                record(Rec { kind: CallKind::Mprotect, addr: addr as usize, len, arg: prot, ret: -1, injected: true });
+                set_errno(libc::ENOMEM);
+                return -1;
+            }
+        }
+    }
     let r = libc::syscall(libc::SYS_mprotect, addr, len, prot) as c_int;
     if ARMED.load(Ordering::Relaxed) {
         record(Rec { kind: CallKind::Mprotect, addr: addr as usize, len, arg: prot, ret: r, injected: false });
@@ -328,6 +393,16 @@ pub unsafe extern "C" fn mprotect(addr: *mut c_void, len: size_t, prot: c_int) -
 
 #[no_mangle]
 pub unsafe extern "C" fn madvise(addr: *mut c_void, len: size_t, advice: c_int) -> c_int {
+    if ARMED.load(Ordering::Relaxed) {
+        tick();
+        let s = st();
+        if s.relfault {
+            s.relfault_fired += 1;
+            record(Rec { kind: CallKind::Madvise, addr: addr as usize, len, arg: advice, ret: -1, injected: true });
+            set_errno(libc::EINVAL);
+            return -1;
+        }
+    }
     let r = libc::syscall(libc::SYS_madvise, addr, len, advice) as c_int;
     if ARMED.load(Ordering::Relaxed) {
         record(Rec { kind: CallKind::Madvise, addr: addr as usize, len, arg: advice, ret: r, injected: false });
